@@ -74,6 +74,9 @@ def build_cases(rng, thorough):
             cases.append((f"d[{pylit(nm)}] = {L}\n", exp, dict(pos="subscript", name=nm, lit=lit)))
             # 4 keyword argument
             cases.append((f"connect(host, {nm}={L})\n", E({("B106", None)} if m else set()), dict(pos="kwarg", name=nm, lit=lit)))
+            # a `**mapping` expansion before the keyword (PEP 448): the keywords after it are arguments like any other (seeded change C16-m17 stopped at the expansion)
+            cases.append((f"connect(**defaults_, {nm}={L})\n", E({("B106", None)} if m else set()), dict(pos="kwarg-after-star", name=nm, lit=lit)))
+            cases.append((f"connect(host, **a_, user='bob', **b_, {nm}={L})\n", E({("B106", None)} if m else set()), dict(pos="kwarg-after-two-stars", name=nm, lit=lit)))
             for cal in (CALLEES if thorough else rng.sample(CALLEES, 2)):
                 cases.append((f"r_ = {cal}(user, {nm}={L})\n", E({("B106", None)} if m else set()), dict(pos="kwarg-callee:" + cal, name=nm, lit=lit)))
             # 5 parameter default
